@@ -10,6 +10,7 @@ import pipeline
 CLAUSES = {
     'C01': ('C01_', 'C14_MultipartIffGeThreshold'),
     'C02': ('C02_', 'C14_DownloadRangesTile'),
+    'C03': ('C03_',),
     'C05': ('C05_',),
     'C06': ('C06_',),
 }
@@ -79,8 +80,19 @@ def scenarios(pid, tier, rng):
             for seq in range(1, n + 1):
                 for after in (False, True):
                     add(dict(sc, faults=[{'on': 's3', 'seq': seq, 'after': after}]), 2 * k)
+                    # a connection-level failure (possibly after the service applied the call)
+                    for kind in ('conn', 'readtimeout'):
+                        add(dict(sc, faults=[{'on': 's3', 'seq': seq, 'after': after,
+                                              'kind': kind}]), 1 * k)
             add(sc, 2 * k)
-    if pid == 'C06':
+    if pid == 'C03':
+        for sc in ups:
+            if sc['transfer']['size'] < 4:
+                continue
+            n = probe_calls(sc)
+            for seq in range(1, n + 1):
+                add(dict(sc, faults=[{'on': 's3', 'seq': seq}]), 1 * k)
+    if pid in ('C06', 'C03'):
         for sc in dls:
             add(sc, 3 * k)
             n = probe_calls(sc)
@@ -135,6 +147,8 @@ def run_e2e(ck, pid, tier, seed):
                 'at_event': at, 'faults': sc.get('faults'),
                 'streams': sc.get('streams'), 'results': r['results'],
                 'fault_op': _fault_op(ev, sc),
+                'raised': ((r['results'].get(0) or r['results'].get('0') or (None, None))[1]),
+                'fault_on': (sc.get('faults') or [{}])[0].get('on') if len(sc.get('faults') or []) == 1 else None,
             }, replay={'kind': 'legacy', 'scenario': sc, 'seed': jobs[r['jid']][1],
                        'clause': c})
     if good:
